@@ -441,3 +441,114 @@ get_const_value = Contract(
     returns=ty.TOpt(ty.Int), properties=("C11", "C10", "C02"), min_obligations=3, no_replay=True,
 )
 CONTRACTS.append(get_const_value)
+
+
+# =================================================================================================
+# PlanEntityEmitter._configure_constant: the constant combinator shows exactly the placement's numbers — a scalar constant
+# one filter (slot 0: its signal, its value), a bundle constant one filter per member in order (slot i: member i's signal
+# and value); all in ONE section; nothing when there is no signal.  Bundles of two and three members (bounded), values symbolic.
+# =================================================================================================
+PE_ = "dsl_compiler/src/emission/entity_emitter.py::PlanEntityEmitter."
+SECTIONS = []
+
+
+class _Section:
+    def __init__(self):
+        self.filters = []
+
+
+def _add_section(ex, a):
+    from pyvc.values import Opaque
+    sec = Opaque("section")
+    sec.filters = []
+    SECTIONS.append(sec)
+    return sec
+
+
+def _set_signal(ex, a):
+    a.recv.filters.append(tuple(a.args))
+    return None
+
+
+add_section_c = Contract(qualname="draftsman::ConstantCombinator.add_section", params={"args": ty.TOpaque("a")}, effect=_add_section, verify=False,
+                         note="ASSUMED (draftsman): add_section() opens a new signal section of the combinator")
+set_signal_c = Contract(qualname="draftsman::Section.set_signal", params={"args": ty.TOpaque("a")}, effect=_set_signal, verify=False,
+                        note="ASSUMED (draftsman): set_signal(slot, name, count) puts that filter in that slot (the decoded blueprint is checked end to end: C07 CLI matrix)")
+
+
+def _cc_post(members):
+    def post(a, res):
+        props = a.props
+        if members:
+            if len(SECTIONS) != 1:
+                return False
+            f = SECTIONS[0].filters
+            want = list(props["signals"].items())
+            return len(f) == len(want) and all(fi[0] == i and fi[1] == k and fi[2] is v for i, (fi, (k, v)) in enumerate(zip(f, want)))
+        name = props["signal_name"]
+        if not SECTIONS:
+            return name is None or z3.Length(name) == 0
+        if len(SECTIONS) != 1 or len(SECTIONS[0].filters) != 1 or name is None:
+            return False
+        f = SECTIONS[0].filters[0]
+        return And(z3.Length(name) > 0, f[0] == 0, f[1] is name, f[2] is props["value"])
+    return post
+
+
+for _members in (0, 2, 3):
+    if _members:
+        _props = ty.TRecord((("signals", ty.TRecord(tuple((f"signal-{'ABC'[i]}", ty.Int) for i in range(_members)))),))
+    else:
+        _props = ty.TRecord((("signals", ty.TConcrete(None)), ("signal_name", ty.TOpt(ty.Str)), ("value", ty.Int)))
+    CONTRACTS.append(Contract(
+        qualname=PE_ + "_configure_constant", params={"self": ty.TObj("PlanEntityEmitter", only=("PlanEntityEmitter",)), "entity": ty.TOpaque("combinator"), "props": _props},
+        requires=[("(reset capture)", lambda a: SECTIONS.clear() or True)],
+        ensures=[("one section; slot i holds member i's signal and value (scalar: slot 0 holds the signal and the value); nothing without a signal", _cc_post(_members))],
+        uses={"opaque.add_section": add_section_c, "opaque.set_signal": set_signal_c},
+        properties=("C11", "C07", "C02"), min_obligations=1, no_replay=True, note=("scalar constant" if not _members else f"bundle constant of {_members} members (bounded)")))
+CONTRACTS += [add_section_c, set_signal_c]
+
+
+# =================================================================================================
+# DSLTransformer._parse_number: the integer a literal denotes — decimal, 0x / 0X hexadecimal, 0o / 0O octal, 0b / 0B binary,
+# surrounding blanks ignored — is the positional value of its digits.  String-to-integer conversion is outside both SMT
+# solvers' decidable string fragment, so the contract is evaluated on the REAL function over an enumerated box: bounded.
+# =================================================================================================
+PNQ = "dsl_compiler/src/parsing/transformer.py::DSLTransformer._parse_number"
+_DIGITS = "0123456789abcdef"
+
+
+def _positional(text):
+    t = text.strip()
+    neg = t.startswith("-")
+    if neg or t.startswith("+"):
+        t = t[1:]
+    base, body = 10, t
+    for pre, b in (("0x", 16), ("0o", 8), ("0b", 2)):
+        if t.lower().startswith(pre):
+            base, body = b, t[2:]
+    v = 0
+    for ch in body.lower():
+        if ch == "_":
+            continue
+        v = v * base + _DIGITS.index(ch)
+    return -v if neg else v
+
+
+parse_number = Contract(qualname=PNQ, params={"text": ty.Str}, ensures=[("the positional value of the digits in the base the prefix announces", lambda a, res: res == _positional(a.text))],
+                        verify=False, properties=("C11",), note="evaluated on the real function over an enumerated box (bounded stand-in)")
+CONTRACTS.append(parse_number)
+
+
+def parse_number_arg_sets():
+    import itertools
+    texts = []
+    for pre, digits in (("", "0123456789"), ("0x", "0123456789abcdefABCDEF"), ("0X", "09afAF"), ("0o", "01234567"), ("0O", "0127"), ("0b", "01"), ("0B", "01")):
+        for n in (1, 2, 3):
+            if len(digits) ** n > 12000:
+                continue
+            for combo in itertools.product(digits, repeat=n):
+                texts.append(pre + "".join(combo))
+    for v in (0, 1, 7, 8, 9, 10, 255, 256, 65535, 65536, 2147483647, 2147483648, 4294967295, 4294967296, 9999999999):
+        texts += [str(v), hex(v), oct(v), bin(v), hex(v).upper().replace("0X", "0x"), f" {v} ", f"\t{hex(v)}\n", f"-{v}"]
+    return [{"text": t} for t in texts]
